@@ -1500,7 +1500,7 @@ func TestVerif_C12(t *testing.T) {
 	}
 	R := vkit.New("C12")
 	defer R.Finish()
-	R.Rule = "Seeds = one valid instance of every external format, produced by the repository's own writers / the reference encoder. Cases = the COMPLETE set of inputs within the deviation bound of a seed, enumerated in a fixed order: the unchanged seed, every truncation length, every offset x {0x00,0x01,0x7f,0x80,0xff,b^0x01,b^0x80}, every located length/count/size field x {0,1,2,max-1,max,consistent-1,consistent+1}, and for seeds <= 80 bytes (thorough 200) every PAIR of byte deviations and every pair of field deviations; large files: every offset of the header region and of the first/last 64 bytes of every structure plus a fixed stride (stated in bounds). Every case is run through all entry points of its format in a worker subprocess under RLIMIT_AS; oracle per call: returns (value or error) - a recovered panic, TotalAlloc growth above 64 MiB + 1000 x len(input), a fatal error or a stall of 20 s that reproduce 3/3 alone are violations. One evaluation = one deviated input through all entry points of its family; non-trivial = the sequence of (entry point, ok/error class/panic) differs from that of the unchanged seed, i.e. the deviation was noticed by the parser."
+	R.Rule = "Seeds = one valid instance of every external format, produced by the repository's own writers / the reference encoder. Cases = the COMPLETE set of inputs within the deviation bound of a seed, enumerated in a fixed order: the unchanged seed, every truncation length, every offset x {0x00,0x01,0x7f,0x80,0xff,b^0x01,b^0x80}, every located length/count/size field x {0,1,2,max-1,max,consistent-1,consistent+1}, and for seeds <= 100 bytes (thorough 200) every PAIR of byte deviations and every pair of field deviations; large files: every offset of the header region and of the first/last 64 bytes of every structure plus a fixed stride (stated in bounds). Every case is run through all entry points of its format in a worker subprocess under RLIMIT_AS; oracle per call: returns (value or error) - a recovered panic, TotalAlloc growth above 64 MiB + 1000 x len(input), a fatal error or a stall of 20 s that reproduce 3/3 alone are violations. One evaluation = one deviated input through all entry points of its family; non-trivial = the sequence of (entry point, ok/error class/panic) differs from that of the unchanged seed, i.e. the deviation was noticed by the parser."
 	dir, err := os.MkdirTemp(c12ScratchRoot(), "c12-")
 	if err != nil {
 		R.Internal("scratch: %v", err)
